@@ -645,6 +645,16 @@ def init_order(ctx, o):
             o.witness(('init-loop', n.line))
             o.sample({'loop': n.src(), 'file': P.rel(n.file), 'line': n.line})
     o.require(n_loops >= 1, 'no loop that initialises the registered assets is reachable from System.simulate')
+    # ... and the registry list itself is never re-ordered (sorted by name, reversed, shuffled): registration order is the only order that does not
+    # depend on how many assets were created earlier in the process
+    for s_ in inv.attr_uses(P, '_assets'):
+        if s_.cls is not S:
+            continue
+        role = s_.extra['role']
+        o.count()
+        if (role[0] == 'method' and role[1] in ('sort', 'reverse')) or (role[0] == 'arg' and role[1].split('.')[-1] in ('shuffle',)) or role[0] in ('subscript-store',):
+            o.fail(P, s_.ctx, s_.stmt, 'the registry of assets is re-ordered in place: initialisation (and every later walk over the assets) then follows names / ids / chance instead of '
+                   'registration order, so the same seed gives different tie-break draws when ids or names differ', file=s_.mod.path, line=s_.line)
 
 
 def check(ctx):
@@ -670,7 +680,9 @@ def check(ctx):
     init_order(ctx, o6)
     o7 = ctx.shared('c07', 'C07.4', 'C14.7', 'running for a and then for b equals running once for a + b only if nothing is dropped at the boundary: pending events are cancelled '
                     'only by an asset, for its own id (a clean-up of the shared id -1 at the end of run() loses plant-level events of the second half)')
-    return [o1, o2, o3, o4, o5, o6, o7]
+    o8 = ctx.shared('c01', 'C01.5', 'C14.8', 'running for a and then for b equals running once for a + b only if what is due after the first leg is still queued when the '
+                    'second starts: every accepted scheduling request is queued, whatever its time')
+    return [o1, o2, o3, o4, o5, o6, o7, o8]
 
 
 CLAIM = {
